@@ -103,8 +103,35 @@ def detect(seed, tier, checks):
     return 0
 
 
+def confirm_benign(seed, wt, src):
+    """A change that is meant to keep every property: patch touches only src/, suite passes."""
+    assert wt.startswith("/tmp/")
+    out = f"{VERIF}/seeded/{seed}"
+    os.makedirs(out, exist_ok=True)
+    patch = f"{src}/patch.diff"
+    sh("git checkout -- . && git clean -fdq tests src", cwd=wt)
+    rc, o = sh(f"git apply --check {patch} && git apply {patch}", cwd=wt)
+    if rc != 0:
+        print("patch does not apply:", o); return 2
+    rc, o = sh("git diff --stat", cwd=wt)
+    res = {"seed": seed, "kind": "benign", "diffstat": o.strip().splitlines()}
+    res["touches_only_src"] = all(l.strip().startswith("src/") for l in o.strip().splitlines()[:-1])
+    rc, o = sh("cargo test --workspace --no-fail-fast --offline 2>&1", cwd=wt, timeout=3600)
+    passed = sum(int(m) for m in re.findall(r"test result: ok\. (\d+) passed", o))
+    res["suite_with_change"] = {"exit": rc, "passed": passed}
+    res["confirmed"] = rc == 0 and passed >= 191 and res["touches_only_src"]
+    shutil.copy(patch, f"{out}/patch.diff")
+    if os.path.exists(f"{src}/notes.md"):
+        shutil.copy(f"{src}/notes.md", f"{out}/notes.md")
+    json.dump(res, open(f"{out}/confirm.json", "w"), indent=1)
+    print(json.dumps(res, indent=1))
+    return 0 if res["confirmed"] else 1
+
+
 if __name__ == "__main__":
     a = sys.argv[1:]
+    if a[0] == "confirm-benign":
+        sys.exit(confirm_benign(a[1], a[2], a[3]))
     if a[0] == "confirm":
         sys.exit(confirm(a[1], a[2], a[3]))
     if a[0] == "detect":
